@@ -254,7 +254,7 @@ func record(out string) {
 	// ranges; every fourth history reads everything after every step, the others only what the mix contains
 	nh, hl := 1500, 30
 	if thorough {
-		nh, hl = 12000, 60
+		nh, hl = 8000, 50
 	}
 	for h := 0; h < nh; h++ {
 		switch h % 3 {
